@@ -74,30 +74,38 @@ def timed_comps(spec):
 def build_framework(spec):
     F = at.ProjectFramework()
     F.sheets["about"] = [_df([("mc", "generated")], ["name", "description"])]
+    ptypes = spec.get("ptypes")  # optional: [type code names]; items carry "ptype" (default: the first type)
+    if ptypes:
+        F.sheets["population types"] = [_df([(t, "Type " + t) for t in ptypes], ["code name", "description"])]
     comps = []
     for c in spec["comps"]:
         k = c.get("kind", "ord")
         page = "cp" if (c.get("init") is not None or c.get("page")) else None
-        comps.append((c["name"], "C " + c["name"], yn(k == "sink"), yn(k == "src"), yn(k == "junc"), page, c.get("default")))
-    F.sheets["compartments"] = [_df(comps, ["code name", "display name", "is sink", "is source", "is junction", "databook page", "default value"])]
+        comps.append((c["name"], "C " + c["name"], yn(k == "sink"), yn(k == "src"), yn(k == "junc"), page, c.get("default"), c.get("ptype")))
+    F.sheets["compartments"] = [_df(comps, ["code name", "display name", "is sink", "is source", "is junction", "databook page", "default value", "population type"])]
     pars = []
     for p in spec["pars"]:
         page = "pp" if (p.get("val") is not None or p.get("page")) else None
-        pars.append((p["name"], "P " + p["name"], p.get("fmt"), p.get("fn"), page, p.get("ts"), yn(p.get("timed")), yn(p.get("targ")), p.get("min"), p.get("max"), yn(p.get("deriv"))))
-    F.sheets["parameters"] = [_df(pars, ["code name", "display name", "format", "function", "databook page", "timescale", "timed", "targetable", "minimum value", "maximum value", "is derivative"])]
-    names = [c["name"] for c in spec["comps"]]
-    m = pd.DataFrame(None, index=names, columns=names, dtype=object)
-    for s, d, p in spec["links"]:
-        cur = m.at[s, d]
-        m.at[s, d] = p if cur is None or (isinstance(cur, float) and np.isnan(cur)) else f"{cur},{p}"
-    m = m.reset_index()
-    m.columns = [None] + names
-    F.sheets["transitions"] = [m]
+        pars.append((p["name"], "P " + p["name"], p.get("fmt"), p.get("fn"), page, p.get("ts"), yn(p.get("timed")), yn(p.get("targ")), p.get("min"), p.get("max"), yn(p.get("deriv")), p.get("ptype")))
+    F.sheets["parameters"] = [_df(pars, ["code name", "display name", "format", "function", "databook page", "timescale", "timed", "targetable", "minimum value", "maximum value", "is derivative", "population type"])]
+    mats = []
+    for t in ptypes or [None]:
+        names = [c["name"] for c in spec["comps"] if (not ptypes) or (c.get("ptype") or ptypes[0]) == t]
+        m = pd.DataFrame(None, index=names, columns=names, dtype=object)
+        for s, d, p in spec["links"]:
+            if s not in names:
+                continue
+            cur = m.at[s, d]
+            m.at[s, d] = p if cur is None or (isinstance(cur, float) and np.isnan(cur)) else f"{cur},{p}"
+        m = m.reset_index()
+        m.columns = [t] + names
+        mats.append(m)
+    F.sheets["transitions"] = mats
     ch = []
     for c in spec.get("characs", []):
         page = "cp" if (c.get("val") is not None or c.get("page")) else None
-        ch.append((c["name"], "X " + c["name"], ",".join(c["comps"]), c.get("denom"), page, c.get("default")))
-    F.sheets["characteristics"] = [_df(ch, ["code name", "display name", "components", "denominator", "databook page", "default value"])]
+        ch.append((c["name"], "X " + c["name"], ",".join(c["comps"]), c.get("denom"), page, c.get("default"), c.get("ptype")))
+    F.sheets["characteristics"] = [_df(ch, ["code name", "display name", "components", "denominator", "databook page", "default value", "population type"])]
     if spec.get("interactions"):
         F.sheets["interactions"] = [_df([(i["name"], "I " + i["name"], i.get("default")) for i in spec["interactions"]], ["code name", "display name", "default value"])]
     if spec.get("cascades"):
@@ -111,7 +119,9 @@ def build_data(spec, F):
     start = spec["sim"][0]
     years = spec.get("years") or [start, start + 1, start + 2]
     pops = spec.get("pops") or ["pa"]
-    D = at.ProjectData.new(F, np.array(years, dtype=float), pops={p: "Pop " + p for p in pops}, transfers={t["name"]: "T " + t["name"] for t in spec.get("transfers", [])})
+    ptype_of = spec.get("pop_types") or {}
+    popspec = {p: ({"label": "Pop " + p, "type": ptype_of[p]} if p in ptype_of else "Pop " + p) for p in pops}
+    D = at.ProjectData.new(F, np.array(years, dtype=float), pops=popspec, transfers={t["name"]: "T " + t["name"] for t in spec.get("transfers", [])})
     for c in spec["comps"]:
         if c.get("init") is not None:
             for pop, ts in D.tdve[c["name"]].ts.items():
